@@ -150,7 +150,7 @@ def build():
                         ("msgpack", "packb"): flagged("msgpack_packb", "use_bin_type", True), ("msgpack", "unpackb"): flagged("msgpack_unpackb", "raw", False),
                         ("yaml", "dump"): yaml_dump, ("yaml", "load"): yaml_load}
     G = {"OPTS": "Opts", "DIALECT": "Opt[Dialect]"}
-    P = ["C16"]
+    P = ["C16", "C04"]       # C04: the front-ends route the payload through the matching codec and dialect with the given options
     A = reg.add
     A(Contract(f"{M}:{C}._serialize", params={"self": "SerObj"}, returns="Payload", globals=G, props=P, trusted=True,
                raises=[("Exception", "*")], ensures=["result == serialize_result(self, OPTS, DIALECT)"],
